@@ -70,6 +70,13 @@ instance : ToString Exc := ⟨Exc.toString⟩
 
 abbrev R (α : Type) := Except Exc α
 
+instance {α : Type} [DecidableEq α] : DecidableEq (Except Exc α) := fun a b =>
+  match a, b with
+  | .ok x, .ok y => if h : x = y then isTrue (by rw [h]) else isFalse (by intro hc; cases hc; exact h rfl)
+  | .error x, .error y => if h : x = y then isTrue (by rw [h]) else isFalse (by intro hc; cases hc; exact h rfl)
+  | .ok _, .error _ => isFalse (by intro hc; cases hc)
+  | .error _, .ok _ => isFalse (by intro hc; cases hc)
+
 /-- Python values that payload attributes and keyword arguments can take in the modelled domain.
     `float` carries the IEEE-754 binary64 bit pattern; `str` carries the UTF-8 bytes;
     `ints` is a list whose elements are ints (`some`) or something without `to_bytes` (`none`);
